@@ -198,6 +198,49 @@ def star_bad(v: int) -> int:
     return two(*_not_tuple(v))
 def star_expr(v: int) -> int:
     return two(*_halves(v + 1))
+import logging
+logger = logging.getLogger(__name__)
+def effect(x):
+    return x
+def if_call(a: int) -> int:
+    if a > 3:
+        effect(a)
+    return a
+def if_print(a: int) -> int:
+    if a > 3:
+        print(a)
+    else:
+        pass
+    return a
+def if_raise(b: bytes, a: int) -> int:
+    if a > 3:
+        y = b[10]
+    return a
+def if_store_call(a: int) -> int:
+    t = [0, 0]
+    if a > 3:
+        t.__setitem__(0, a)
+    return t[0]
+def if_append(a: int) -> int:
+    t = [0]
+    if a > 3:
+        t.append(a)
+    return len(t)
+def if_log(a: int) -> int:
+    if a > 3:
+        logger.warning("big")
+        logging.info("value %d", a)
+    elif a < 0:
+        pass
+    return a
+def if_log_arg(b: bytes, a: int) -> int:
+    if a > 3:
+        logger.warning("big %d", b[a])
+    return a
+def if_temp(a: int) -> int:
+    if a > 3:
+        y = a + 1
+    return a
 def binones(a: int, n: int) -> int:
     return bin(a)[2:n + 2].count('1')
 def cond_raise_while(b: bytes, j: int) -> int:
@@ -262,6 +305,15 @@ CASES = [   # (function, extra spec, expected substring of the error | None = mu
     ("star_ok", {}, None),                                   # f(*h(v)) with h a one-line tuple-returning helper
     ("star_bad", {}, "single `return"),
     ("star_expr", {}, "only names / constants"),
+    # an `if` that assigns nothing live is never dropped unseen: its branches are validated statement by statement
+    ("if_call", {}, "statement Expr is not in the subset"),
+    ("if_print", {}, "statement Expr is not in the subset"),
+    ("if_raise", {}, "can raise"),
+    ("if_store_call", {}, "statement Expr is not in the subset"),
+    ("if_append", {}, None),                                 # the append is translated (a conditional `t ++ [a]`), not dropped
+    ("if_log", {}, None),                                    # logging only: left out, with a note
+    ("if_log_arg", {}, "logging call with an argument"),
+    ("if_temp", {}, None),                                   # a dead, pure assignment: left out
     ("binones", {}, "cannot show it is >= 0"),
     ("binones", {"ranges": {"n": (0, 64)}}, None),           # short-circuit `and` with a raising right operand
 
